@@ -147,7 +147,8 @@ def handle (st : St) (fam : String) (rhs : String) : P Out := do
   | "dtfromtn" =>
     let n ← int
     let m := DateTime.fromTotalNanoseconds n st.zone
-    pure { model := showTz showDt m, oracles := Spec.dtOracles rhsToks }
+    pure { model := showTz (fun d => showDt d ++ s!" TN {nanosecondsSinceUnixEpoch d.unixTime d.nanoseconds}") m,
+           oracles := Spec.dtfromtnOracles st.zone n rhsToks }
   | "find" =>
     let (y, mo, d, h, mi, s, ns) ← fields7
     let m := findDateTime y mo d h mi s ns st.zone
